@@ -104,6 +104,16 @@ def chain(ctx) -> None:
     ok = len(idx) == 1 and core.src(idx[0].value) == 'self.tag.states[key]' and any(core.src(t) == 'isinstance(key, int)' and pol for t, pol in cfg.guards(idx[0], get.node, siblings=False))
     ctx.check(ok, 'C04.chain', get, 'a positional key indexes the ordered state list of the tag (never a sorted listing)', idx[0] if idx else get.node, key='Generation.get:positional')
     ctx.check('return STATES(self.registry, self.project.key, self.release.key, self.key, key)' in core.src(get.node), 'C04.chain', get, 'the state is read from this very project/release/generation', get.node, key='Generation.get:read')
+    k = get.param_names[1]
+    shared.stmt_under(ctx, 'C04.chain', get, "return b''", [('self.tag.training', False)], 'a generation that was never trained hands out the empty state (the actor stays untrained)', 'Generation.get:untrained', inlined=False, siblings=False)
+    shared.stmt_under(ctx, 'C04.chain', get, f'{k} = self.tag.states[{k}]', [(f'isinstance({k}, int)', True)], 'a position is translated through the ordered state list', 'Generation.get:index', inlined=False, siblings=False)
+    rs = [r for r in core.walk_local(get.node) if isinstance(r, ast.Raise)]
+    ctx.check(len(rs) == 1 and cfg.cguards(rs[0], get.node) == [(f'{k} not in self.tag.states', True)], 'C04.chain', get, 'a state id that the tag does not list is refused', rs[0] if rs else get.node, key='Generation.get:unknown')
+    sc = prog.func(f'{ACCESS}:State.commit')
+    shared.stmt_under(ctx, 'C04.chain', sc, 'self._generation = self._generation.release.put((self._tag or self._generation.tag).replace(states=states))', [], 'the committed tag is the given one (else the generation\'s) with exactly the committed state ids, in order', 'State.commit:tag', siblings=False)
+    si = prog.func(f'{ACCESS}:State.__init__')
+    for want in ("self._generation: 'asset.Generation' = generation", "self._nodes: tuple[uuid.UUID] = tuple(nodes)", "self._tag: typing.Optional['asset.Tag'] = tag"):
+        ctx.check(any(core.src(x) == want for x in si.body), 'C04.chain', si, f'State keeps `{want.split(":")[0]}` as given', si.node, key=f'State.__init__:{want.split(":")[0]}')
     C01.persistence(ctx)
     # an implicit ("latest") level key is resolved once and pinned: all state loads of one run see one generation
     lk = prog.func('forml.io.asset._directory:Level.key')
